@@ -195,9 +195,10 @@ Verdict(e) ==
     ELSE IF e.ev = "Config" THEN (IF WellFormed(e) THEN "ok" ELSE "MalformedConfig")
     ELSE IF cur.ev # "Config" THEN "NoConfig"
     ELSE IF e.ev = "Prefix" THEN
-        \* a raised call carries no obligation (counted by the harness) -- except for C14: a warm start with a zero budget
-        \* or fixed modes is a request the property speaks about; only a numerical break-down (LinAlgError) is excused
-        IF e.out # "ok" THEN (IF Prop = "C14" /\ e.exc # "LinAlgError" THEN "WarmStartRequestRaised" ELSE "ok")
+        \* every configuration of the domain is a legal request: only a numerical break-down (LinAlgError: a singular block
+        \* system) is excused; anything else that raises means the guarantee was not delivered
+        IF e.out # "ok" THEN (IF e.exc = "LinAlgError" THEN "ok"
+                              ELSE IF Prop = "C14" THEN "WarmStartRequestRaised" ELSE "RequestRaised")
         ELSE IF e.malformed THEN "ReturnedObjectIsNotADecomposition"   \* pieces that do not even fit together
         ELSE CASE Prop = "C06" -> V06(e)
                [] Prop = "C07" -> V07(e)
